@@ -785,11 +785,20 @@ def compare_unit(unit, oracle, bind, lang="python", imports=None, col=None):
                 edesc = "%s of %s %s (line %d)" % (how, owner.kind, owner.name, owner.line)
             if ok:
                 continue
+            if role == "decl":
+                # the global / nonlocal statement itself (resolved by a dedicated branch of lian): its own expected
+                # kind, so that it cannot hide behind the findings about the USES under such a declaration
+                ekind = ("global-statement-itself(%s)" % ("unresolved" if ekind.startswith("unresolved") else "module")
+                         if how == "global-stmt" else "nonlocal-statement-itself")
             # root-cause qualifiers, most specific first; the first one that is an OPEN known finding names the
             # signature (so that repairing one defect does not hide behind / get blamed on another)
             eks = []
             if name in block_imports:
-                eks.append("name-also-imported-inside-a-module-level-block")
+                # two different root causes: (owner is something else) the block's import row is an implicit root
+                # scope preferred over the visible declaration; (owner is the module) the import statement is not
+                # at unit top level, so it is only analysed when def-use analysis reaches it
+                eks.append("module-level-name-imported-inside-a-block" if owner.kind == "module" else
+                           "name-also-imported-inside-a-module-level-block")
             if owner.kind == "func" and owner.parent is not None and owner.parent.kind == "class" \
                     and ps is not owner and _first_param(owner) == name:
                 eks.append("first-parameter-of-method-captured-by-nested-scope")
